@@ -205,3 +205,39 @@ Section EP.
     destruct tbl; reflexivity.
   Qed.
 End EP.
+
+Section EPFull.
+  Variable rec : Type.
+  Variable pow : Q -> Q -> Q.
+  Variable prior : Q.
+  Variable cmps : list (list level).
+  Variable outc : rec -> rec -> list (nat -> tv).
+  Notation score_row := (score_row rec pow cmps outc).
+
+  Lemma same_score_when_same_tf_full :
+    (forall adm rules tf T L R x,
+        In x (ep_predict rec pow prior cmps outc adm rules tf T L R) -> scored_with rec pow cmps outc tf tf x) /\
+    (forall tfl tfr L R x,
+        In x (ep_compare rec pow cmps outc tfl tfr L R) -> scored_with rec pow cmps outc tfl tfr x) /\
+    (forall rules tfe tfn t E N x,
+        In x (ep_find_matches rec pow prior cmps outc rules tfe tfn t E N) -> scored_with rec pow cmps outc tfe tfn x) /\
+    (forall adm cluster in_pred tf T C x,
+        In x (ep_missing_edges rec pow prior cmps outc adm cluster in_pred tf T C) -> scored_with rec pow cmps outc tf tf x) /\
+    (forall tfl tfr tfl' tfr' (x y : scored rec),
+        scored_with rec pow cmps outc tfl tfr x -> scored_with rec pow cmps outc tfl' tfr' y ->
+        fst x = fst y ->
+        (forall k, tfl (fst (fst x)) k = tfl' (fst (fst x)) k) ->
+        (forall k, tfr (snd (fst x)) k = tfr' (snd (fst x)) k) ->
+        x = y /\ row_gammas rec x = row_gammas rec y /\ row_score rec prior x = row_score rec prior y).
+  Proof.
+    repeat split.
+    - intros adm rules tf T L R x H. apply in_ep_predict in H. destruct H as (n & l & r & _ & -> & _). apply scored_with_row.
+    - intros tfl tfr L R x H. apply in_ep_compare in H. destruct H as (l & r & _ & _ & ->). apply scored_with_row.
+    - intros rules tfe tfn t E N x H. apply in_ep_find_matches in H. destruct H as (l & r & _ & _ & _ & -> & _). apply scored_with_row.
+    - intros adm cluster in_pred tf T C x H. apply in_ep_missing_edges in H.
+      destruct H as (l & r & _ & _ & _ & _ & _ & -> & _). apply scored_with_row.
+    - eapply same_tf_same_row; eauto.
+    - f_equal. eapply same_tf_same_row; eauto.
+    - f_equal. eapply same_tf_same_row; eauto.
+  Qed.
+End EPFull.
